@@ -240,7 +240,9 @@ static Result judge_C11(const Case& c) {
   for (auto& ni : o.nodes) { if (ni.type == 4 || ni.type == 5 || ni.type == 6) has_container = true; if (ni.type == 2 || ni.type == 3) has_string = true; }
   r.nontrivial = has_container && (has_string || st.shared);
   va::Snapshot before = va::snapshot();
+  uint64_t req0 = va::g.requests;
   cp = cbor_copy(t.item);
+  uint64_t copy_requests = va::g.requests - req0;
   if (!cp) return fail("cbor_copy returned NULL without any allocation being refused");
   // source untouched: the byte image of every block that was live before the call is unchanged
   {
@@ -263,6 +265,20 @@ static Result judge_C11(const Case& c) {
     collect_ranges(o, sn, sr); collect_ranges(oc, cn, cr);
     if (cn.size() != oc.nodes.size()) return fail("a node appears twice in the copy (shared sub-item was not unshared)");
     for (auto& a : sr) for (auto& b : cr) if (a.first < b.second && b.first < a.second) return fail("copy and source share a node or a buffer");
+  }
+  // a copy that fails for lack of memory must leave the source (and everything else) exactly as it was
+  if ((c.aux[0] & 1) == 0 && copy_requests <= 48) {
+    va::Snapshot snap = va::snapshot();
+    for (uint64_t k = 0; k < copy_requests; k++) {
+      va::g.refused_fault = 0; va::g.fail_at = (int64_t)va::g.requests + (int64_t)k;
+      cbor_item_t* cp2 = cbor_copy(t.item);
+      bool refused = va::g.refused_fault > 0; va::g.refused_fault = 0; va::reset_faults();
+      vh::counters["starved_copies"]++;
+      if (cp2) { if (refused) { cbor_decref(&cp2); return fail("cbor_copy returned a tree although request " + std::to_string(k) + " of the copy was refused"); } cbor_decref(&cp2); }
+      else if (!refused) return fail("cbor_copy returned NULL without an allocation being refused");
+      const char* why2 = "";
+      if (!va::same_as(snap, &why2)) return fail("cbor_copy with its request " + std::to_string(k) + " refused: " + why2 + " (source contents / reference counts changed, or memory leaked)");
+    }
   }
   // independence: mutate / release one side and re-check the other, in the order chosen by aux[0]
   bool mutate_copy = (c.aux[0] & 1) == 0;
